@@ -32,7 +32,10 @@ LEVEL_TEXT = ("Lean theorems for all stored-record maps, outcome scripts, lifecy
               "whatever its namesake's record says), namesake_not_inherited (all-at-once: it IS invoked in this pass), "
               "closed_iff_all_finished_taken, closed_purges_whole, namesake_record_overwritten, final_outcome_recorded_whole, "
               "finished_never_invoked_whole / once_per_cycle_whole (inside one cycle nothing is left out: invokedSeqB_eq), composed with sub-passes: "
-              "composed_pass_is_cycle2_over_taken, cycle2B_child_no_rerun, cycle2B_closed_purges_children; namesake_not_inherited_regression "
+              "composed_pass_is_cycle2_over_taken, cycle2B_child_no_rerun, cycle2B_closed_purges_children; free_pass_purges (the cause FREE, "
+              "/repo 40d09eb: `cycleB` invokes nothing, closes nothing, removes every owned record present and, by their subrefs, their "
+              "sub-handlers', touches nothing else — `cycle`, over which C14/C15's lemmas are stated, keeps the no-op purge only); "
+              "namesake_not_inherited_regression "
               "(the N3 history: before nothing invoked & closed; now `h` invoked with retry 0). NEGATIVE, with witnesses replayed on the real "
               "operator: namesake_subrefs_dropped_witness (OPEN C02-F2 = C03-N7, brought in by f7d6401: the namesake's record is left out with "
               "its subrefs, its children's records survive the closing purge), namesake_children_inherit_witness (OPEN C03-N8 = C11-F6: the "
@@ -75,7 +78,7 @@ THEOREMS = [("Kopf.Props.C02", "Kopf.C02." + n) for n in [
     "cycle2_refines_cycle", "cycle2_closed_purges_children", "cycle2_child_no_rerun", "sub_not_rerun_after_supersede_regression", "cycle2_keeps_untouched",
     "sub_selection_is_registration", "cycle2_closed_children_finished", "cycle2_due_child_invoked_all_at_once",
     "delete_parent_runs_its_children_regression",
-    "pass_is_cycle_over_taken", "taken_iff", "no_rerun_own", "retry_kwarg_taken", "invoked_selected_awake_taken",
+    "pass_is_cycle_over_taken", "free_pass_purges", "taken_iff", "no_rerun_own", "retry_kwarg_taken", "invoked_selected_awake_taken",
     "namesake_starts_from_scratch", "namesake_not_inherited", "closed_iff_all_finished_taken", "closed_purges_whole",
     "namesake_record_overwritten", "final_outcome_recorded_whole", "invokedSeqB_eq", "finished_never_invoked_whole",
     "once_per_cycle_whole", "namesake_not_inherited_regression", "namesake_subrefs_dropped_witness",
@@ -99,7 +102,11 @@ RULE = ("seeded scenarios: 1-4 change handlers (create/update/delete/resume, opt
         "finished, failed for good, retrying or sleeping (or a sibling keeps the cycle open) when the superseding cause — the deletion, an "
         "edit, a label flip — arrives, early or after the first cycle closed, stop / kill + restart in between, a foreign finalizer that keeps "
         "the object after the release, a resuming sibling (mix-in), sub-handlers under the first registration only or under both (histogram "
-        "namesake_record_not_inherited); one case = one handling pass; distinct & non-trivial = "
+        "namesake_record_not_inherited); a FREE family (gen_free): the object marked for deletion, not (or no longer) held by the "
+        "framework's finalizer, kept alive by somebody else's, carrying the records of create / update / resume handlers (some with "
+        "sub-handlers) that were retrying when the deletion came — no deletion handler, an optional one, one whose label filter fails, or "
+        "a mandatory one that is run and released first — then foreign edits, the other party letting go, stop / kill + restart "
+        "(histogram free_pass); one case = one handling pass; distinct & non-trivial = "
         "distinct abstracted (reason, stored-record shape, outcomes, closing) tuples with at least one handler selected")
 TRUSTED = ["harness/sim (virtual-time loop, fake API server, scripted handlers, attribute-level observation of kopf)",
            "abstraction of a pass: records decoded with kopf's own progress storage (C16's subject)",
@@ -581,6 +588,80 @@ def gen_stacked(rng: Any, i: int) -> dict:
         timeline.append([t + 20.0, "fins", "a", []])
     sc["timeline"] = timeline
     sc["end"] = t + 6 * long_d + 30.0
+    if rng.random() < 0.15:
+        sc["status_subresource"] = True
+    return sc
+
+
+def gen_free(rng: Any, i: int) -> dict:
+    """Passes of the cause FREE over LEFTOVER records (/repo 40d09eb, formerly C03-N4): the object is marked for deletion,
+    the framework's own finalizer is not on it (no mandatory deletion handler matches: none declared, only optional ones,
+    or its label filter fails; or the framework has just released it), somebody else's finalizer keeps it alive — and
+    it carries the progress records of handlers that were retrying / sleeping when the deletion came (create, update,
+    resume handlers, some with sub-handlers whose records the parents' `subrefs` reference), or, after a release,
+    whatever a stacked registration left. The FREE pass invokes nothing and purges the owned records present and their
+    sub-handlers'. Then: nothing, a foreign edit, the other party lets go (the object goes), a stop / kill + restart on
+    the object in that state (it is listed again: FREE again, nothing left to purge)."""
+    handlers: list[dict] = []
+    long_d = rng.choice([8.0, 16.0, 64.0])
+    for k in range(rng.choice([1, 2, 2, 3])):
+        kind = rng.choice(["update", "update", "create", "resume"])
+        h: dict[str, Any] = {"kind": kind, "id": f"{kind[0]}{k}", "opts": {}, "default": "ok",
+                             "script": [rng.choice([["temp", long_d], ["temp", long_d], "arb"]) for _ in range(rng.choice([1, 1, 2]))]}
+        if rng.random() < 0.3:
+            h["opts"]["backoff"] = rng.choice([8.0, 16.0])
+        if kind in ("update", "create") and rng.random() < 0.3:
+            # the parent's own function succeeds, a child retries: the children's records are referenced by its subrefs
+            h["script"] = []
+            h["sub"] = [{"id": f"s{j}", "default": "ok", "script": [rng.choice(["ok", ["temp", long_d]])] if j else [["temp", long_d]]}
+                        for j in range(rng.choice([1, 2]))]
+            h["sub_mode"] = rng.choice(["execute", "decorator", "register", "decorator_execute"])
+        if kind == "resume" and rng.random() < 0.5:
+            h["opts"]["deleted"] = True
+        handlers.append(h)
+    r = rng.random()
+    if r < 0.3:
+        handlers.append({"kind": "delete", "id": "d", "opts": {"optional": True}, "script": [], "default": "ok"})
+    elif r < 0.45:
+        handlers.append({"kind": "delete", "id": "d", "opts": {"labels": {"l": "nope"}}, "script": [], "default": "ok"})
+    elif r < 0.6:     # a mandatory deletion handler: the object is held, released, and only then FREE
+        handlers.append({"kind": "delete", "id": "d", "opts": {}, "default": "ok",
+                         "script": [rng.choice(["ok", ["temp", 1.0]])]})
+    rng.shuffle(handlers)
+    body0: dict[str, Any] = {"spec": {"x": 0}, "metadata": {"labels": {"l": "1"}, "finalizers": ["example.com/hold"]}}
+    sc: dict[str, Any] = {"seed": i, "lifecycle": rng.choice(["asap", "one_by_one", "all_at_once"]), "handlers": handlers,
+                          "settings": {"execution.default_backoff": rng.choice([4.0, 8.0])}, "family": "free"}
+    timeline: list[list] = []
+    if any(h["kind"] == "resume" for h in handlers) and rng.random() < 0.6:
+        body0["metadata"]["annotations"] = {OWN_PREFIX + "last-handled-configuration":
+                                            json.dumps({"spec": {"x": 0}, "metadata": {"labels": {"l": "1"}}}, separators=(",", ":")) + "\n"}
+        sc["objects"] = [{"name": "a", "body": body0}]
+        t = 1.0
+    else:
+        timeline.append([1.0, "create", "a", body0])
+        t = 2.0
+    if any(h["kind"] == "update" for h in handlers):
+        t += rng.choice([0.5, 1.0])
+        timeline.append([t, "edit", "a", {"spec": {"x": 1}}])
+    t += rng.choice([0.25, 0.5, 1.0, 2.0])        # … while the handlers are retrying / sleeping
+    timeline.append([t, "delete", "a"])
+    t_del = t
+    for _ in range(rng.choice([0, 0, 1, 2])):
+        t += rng.choice([0.5, 2.0, 5.0])
+        timeline.append([t, "edit", "a", rng.choice([{"metadata": {"labels": {"z": str(len(timeline))}}},
+                                                      {"status": {"foreign": len(timeline)}}, {"spec": {"x": 5 + len(timeline)}}])])
+    rr = rng.random()
+    if rr < 0.25:
+        ts = t_del + rng.choice([0.015625, 0.5, 2.0])
+        timeline.append([ts, rng.choice(["stop", "kill"])])
+        timeline.append([ts + rng.choice([0.5, 2.0]), "start"])
+    elif rr < 0.35:      # the deletion arrives while the operator is down
+        timeline.append([t_del - 0.125, rng.choice(["stop", "kill"])])
+        timeline.append([t_del + rng.choice([0.5, 2.0]), "start"])
+    if rng.random() < 0.4:
+        timeline.append([t + rng.choice([4.0, 12.0]), "fins", "a", []])
+    sc["timeline"] = timeline
+    sc["end"] = t + 30.0
     if rng.random() < 0.15:
         sc["status_subresource"] = True
     return sc
@@ -1106,6 +1187,7 @@ def run(ctx: Ctx) -> None:
     scenarios += [gen_subs(ctx.rng, 70_000_000 + ctx.seed * 100000 + i) for i in range(max(60, n // 2))]
     scenarios += [gen_deselect(ctx.rng, 80_000_000 + ctx.seed * 100000 + i) for i in range(max(40, n // 4))]
     scenarios += [gen_stacked(ctx.rng, 90_000_000 + ctx.seed * 100000 + i) for i in range(max(60, n // 3))]
+    scenarios += [gen_free(ctx.rng, 95_000_000 + ctx.seed * 100000 + i) for i in range(max(40, n // 5))]
     for name, sc in _corpus():
         scenarios.insert(0, sc)
     results = pool.run_many(scenarios, wall=40.0)
@@ -1142,6 +1224,11 @@ def run(ctx: Ctx) -> None:
                      sample={"scenario_seed": sc.get("seed"), "cycle": cyc["i"], "request": req[1], "impl": impl}
                      if p["selected"] and p["P"] and any(p["P"].values()) else None)
             ctx.count("reason", p["reason"])
+            if p["reason"] == "free":
+                left = sorted(k for k, v in p["P"].items() if v is not None)
+                gone = sorted(k for k in left if p["P_after"].get(k) is None)
+                ctx.count("free_pass", f"leftover records: {min(len(left), 4)} (owned {min(len([k for k in left if k in p['owned']]), 3)}), "
+                                       f"purged: {min(len(gone), 4)}")
             ctx.count("outcomes", ",".join(sorted((o.get("exc") or "ok") for o in (p["outcomes"] or {}).values())) or "-")
             reqs.append(req)
             impls.append(impl)
